@@ -132,10 +132,16 @@ func decodeHistory(l SL) ([]dbAcct, []op) {
 			panic("hxlib: bad db account")
 		}
 		d := dbAcct{addr: AsInt(f[0]), nonce: AsU64(f[1]), bal: AsBig(f[2]), code: AsInt(f[3])}
+		if d.addr < 1 || d.addr > 4 || d.code < 0 || d.code > 7 {
+			panic("hxlib: committed account outside the observed domain")
+		}
 		for _, sv := range AsList(f[4]) {
 			p := AsList(sv)
 			if len(p) != 2 {
 				panic("hxlib: bad slot")
+			}
+			if !AsBig(p[0]).IsInt64() || AsBig(p[0]).Int64() < 0 || AsBig(p[0]).Int64() > 3 {
+				panic("hxlib: committed slot outside the observed domain")
 			}
 			d.stor = append(d.stor, [2]*big.Int{AsBig(p[0]), AsBig(p[1])})
 		}
@@ -214,6 +220,14 @@ func decodeHistory(l SL) ([]dbAcct, []op) {
 		}
 		if o.v.Sign() < 0 || o.a < 0 || o.a > 255 || o.k < 0 || o.k > 255 {
 			panic("hxlib: negative or oversized argument")
+		}
+		// the dump-diff oracle observes addresses 1..4 and slots 0..3 only
+		switch o.tag {
+		case opCreateAccount, opCreateContract, opAddBalance, opSubBalance, opSetBalance, opSetNonce, opSetCode,
+			opSetState, opSetTransient, opSelfDestruct, opSelfDestruct6780, opAddAddress, opAddSlot, opAddLog, opGet:
+			if o.a < 1 || o.a > 4 || o.k > 3 {
+				panic("hxlib: address/slot outside the observed domain")
+			}
 		}
 		ops = append(ops, o)
 	}
